@@ -910,6 +910,12 @@ class Grammar(PGFile):
                 message=f'Unknown symbol "{symbol_fqn}"',
             )
 
+        # The file of the symbol may be reached by several import paths
+        # (diamond imports) but an override is registered only by the symbol's
+        # FQN (the first import path). Use it for the references coming along
+        # the other paths too.
+        symbol = self.symbols_by_name.get(symbol.fqn, symbol)
+
         mult = symbol_ref.multiplicity
         if mult != MULT_ONE:
             # If multiplicity is used than we are referring to
